@@ -220,7 +220,7 @@ def cached_binary(binname, prop, default_prop, mode='asan', structural_props=('C
                 # a crash while loading belongs to the loader property, a crash while shaping an accepted mutant to C02: the report tells which
                 rep = f.get('report', '')
                 fp = 'C02' if ('gr_make_seg' in rep or 'runGraphite' in rep or 'gr_seg_' in rep or 'gr_slot_' in rep) and default_prop == 'C01' else default_prop
-            if fp != prop: continue
+            if fp != prop and f.get('also') != prop: continue
             f = dict(f); f['_mode'] = mode; f['_bin'] = binname; f['_args'] = []
             failures.append(f)
         return results, failures, (1 if failures else 0), ''
